@@ -126,6 +126,7 @@ type KnownFinding struct {
 	ID        string   `json:"id"`
 	Property  []string `json:"properties"`
 	Rule      string   `json:"rule"`
+	AlsoRules []string `json:"also_rules,omitempty"` // other rule ids that report the same construct under another property
 	Keys      []string `json:"keys"` // exact obligation keys (config-independent)
 	WhatFails string   `json:"what_fails"`
 	Repro     string   `json:"repro"`
@@ -297,6 +298,9 @@ func RunProperty(prop *Property, tier string, seed int, onlyRule string) *Result
 			hits = append(hits, h)
 			for _, k := range kf.Keys {
 				idx[kf.Rule+"\x00"+k] = h
+				for _, r := range kf.AlsoRules {
+					idx[r+"\x00"+k] = h
+				}
 			}
 		}
 	}
